@@ -244,6 +244,8 @@ def correspondence(obs, model):
                         return 'node tree differs in subset %d at top-level node %d: %s vs %s' % (k, j, json.dumps(x)[:160], json.dumps(y)[:160])
                 return 'node tree differs in subset %d (length %d vs %d)' % (k, len(a), len(m))
         return 'node tree: number of subsets differs'
+    if not all(x is True for x in model.get('side_ok', [])):
+        return 'the side conditions of C09_nested_json_to_flat_partial do not hold on the model although the wiring pass succeeds: %s' % model.get('side_ok')
     mn = model['nested']
     st = obs['stages'].get('nested_json', {})
     if isinstance(mn, dict):
